@@ -4,6 +4,7 @@ import "fmt"
 
 // NewStringEnumSchema creates a new enum of string values.
 func NewStringEnumSchema(validValues map[string]*DisplayValue) *StringEnumSchema {
+	validValues = withDisplayValues(validValues)
 	return &StringEnumSchema{
 		TypedStringEnumSchema[string]{
 			EnumSchema[string, string]{
@@ -16,6 +17,7 @@ func NewStringEnumSchema(validValues map[string]*DisplayValue) *StringEnumSchema
 // NewTypedStringEnumSchema allows the use of a type with string as an underlying type.
 // Useful for external APIs that are being mapped to a schema that use string enums.
 func NewTypedStringEnumSchema[T ~string](validValues map[T]*DisplayValue) *TypedStringEnumSchema[T] {
+	validValues = withDisplayValues(validValues)
 	return &TypedStringEnumSchema[T]{
 		EnumSchema[string, T]{
 			ValidValuesMap: validValues,
